@@ -29,8 +29,14 @@ func runC14(c *Ctx) {
 	c14R4(c, "C14.R4")
 	c14R5(c, "C14.R5")
 	c14R6(c, "C14.R6")
+	c14R7(c, "C14.R7")
 	c.importing = "C02"
 	c02R6(c, "C02.R6")
+	c.importing = ""
+	// a datagram keeps its content only if the bytes forwarded are exactly what its own read delivered, from a buffer no
+	// other goroutine reuses meanwhile (the UDP relay loop of RouteUDP is one of the relay sites of this rule)
+	c.importing = "C01"
+	c01R4(c, "C01.R4")
 	c.importing = ""
 }
 
@@ -495,7 +501,7 @@ func c14R4(c *Ctx, rule string) {
 }
 
 func c14R5(c *Ctx, rule string) {
-	c.Rule(rule, "client map: RouteUDP's per-address stream map is only accessed under streamsMutex, keyed by addr.String() at every site", 4)
+	c.Rule(rule, "client map: RouteUDP's per-address stream map is only accessed under streamsMutex, keyed by addr.String() at every site", 3)
 	p := c.P
 	ru := c.need(rule, "internal/client", "RouteUDP")
 	if ru == nil {
